@@ -394,9 +394,22 @@ func (s *Syncer) addPeer(p *Peer) error {
 		return fmt.Errorf("failed to update peer info: %w", err)
 	}
 
+	// re-check the inbound limit while holding the lock: allowConnect ran
+	// before the handshake, so concurrent connections may all have passed it
 	s.mu.Lock()
+	defer s.mu.Unlock()
+	if p.Inbound {
+		var in int
+		for _, other := range s.peers {
+			if other.Inbound {
+				in++
+			}
+		}
+		if in >= s.config.MaxInboundPeers {
+			return errors.New("too many inbound peers")
+		}
+	}
 	s.peers[p.t.Addr] = p
-	s.mu.Unlock()
 	return nil
 }
 
